@@ -897,7 +897,7 @@ def check_laws(prop, tier, seed):
     assumptions = ["code points of strings are computed by the harness (Rust chars()) and are the reference representation for the TLA+ predicates",
                    "C25 format_int is checked against an independent long-division model (FnLaws!FormatRadix); timestamps only relationally"]
     mine = [v for v in agg["viols"] if v["prop"] == prop]
-    return verdict(prop, tier, seed, "exploration", coverage, mine, assumptions, t0, replay_writer)
+    return verdict(prop, tier, seed, "model_checking" if prop == "C35" else "exploration", coverage, mine, assumptions, t0, replay_writer)
 
 
 def check_tz(prop, tier, seed):
@@ -1373,4 +1373,4 @@ def check_digests(prop, tier, seed):
                    "md5, sha1, sha2, sha3, xxhash have no model here beyond published vectors and shape/distinctness laws; seahash only the laws",
                    "hmac with keys longer than the block (hashed first) is not covered by the definitional law"]
     mine = [v for v in agg["viols"] if v["prop"] == prop]
-    return verdict(prop, tier, seed, "exploration", coverage, mine, assumptions, t0, replay_writer)
+    return verdict(prop, tier, seed, "model_checking", coverage, mine, assumptions, t0, replay_writer)
